@@ -110,6 +110,36 @@ def work(case: Any) -> Any:
                         if str(Version(got)) != want:
                             v.append(("pep440_round_trip_changes_version", {"pre": pre is not None, "release_components": ln},
                                       f"semver_to_pep440(pep440_to_semver({sp!r})) = {got!r}, normalized original {want!r}"))
+    elif kind == "classify_len":
+        # versions written with fewer than three release components (1, 1.0): a missing component is an implicit 0
+        small = [0, 1, 2]
+        rels: list[tuple[int, ...]] = [r for ln in (1, 2, 3) for r in itertools.product(small, repeat=ln)]
+        pres = [None, ("a", 0), ("rc", 1)]
+        for cur_rel in rels:
+            for cur_pre in pres:
+                for prev_rel in rels:
+                    for prev_pre in pres:
+                        if len(cur_rel) == 3 and len(prev_rel) == 3:
+                            continue  # (the three-component pairs are the classify kinds' subject)
+                        n += 1
+                        a, b = pep(cur_rel, cur_pre), pep(prev_rel, prev_pre)  # type: ignore[arg-type]
+                        pc, pp = (tuple(cur_rel) + (0, 0, 0))[:3], (tuple(prev_rel) + (0, 0, 0))[:3]
+                        if not Version(a) > Version(b):
+                            want: Any = "none"
+                        else:
+                            want = next((name for i, name in enumerate(("major", "minor", "patch")) if pc[i] != pp[i]), None)
+                        try:
+                            got = detect_change_type(a, b)
+                        except Exception as e:  # noqa: BLE001
+                            v.append(("change_classification_raises", {"release_components": [len(cur_rel), len(prev_rel)]}, f"detect_change_type({a!r}, {b!r}): {type(e).__name__}: {e}"))
+                            continue
+                        if want is None:
+                            continue
+                        nontriv += want != "none"
+                        if got != want:
+                            v.append(("change_classification_wrong", {"expected": want, "got": got, "equal_versions": Version(a) == Version(b), "mixed_spelling": False,
+                                                                      "release_components": "fewer_than_three"},
+                                      f"detect_change_type({a!r}, {b!r}) = {got!r}, expected {want!r}"))
     else:
         all_spell = kind == "classify4"
         rels = list(itertools.product(cs if not all_spell else [c for c in cs if c in (0, 1, 2, 10)], repeat=3))
@@ -153,7 +183,7 @@ RULE = ("release triples over the component grid {0,1,2,10} (quick) / {0,1,2,9,1
 
 
 def run(tier: str, seed: int) -> Any:
-    cases = [("roundtrip", tier, 0), ("roundtrip_len", tier, 0)] + [("classify4", tier, c) for c in range(16)]
+    cases = [("roundtrip", tier, 0), ("roundtrip_len", tier, 0), ("classify_len", tier, 0)] + [("classify4", tier, c) for c in range(16)]
     if tier != "quick":
         cases += [("classify", tier, c) for c in range(16)]
     return run_grid(PID, RULE, cases, work, seed=seed, chunksize=1, assumptions=[
